@@ -185,6 +185,8 @@ fn tpl_match(parts: &[TplPart], s: &str, plain_numbers_only: bool) -> Tri {
 pub const ALL_QUIRKS: &[&str] = &["strict_inter_per_member", "tpl_number_grammar"];
 
 pub struct Ref<'a> {
+    /// value generation only: at an intersection, produce a member of one randomly chosen operand
+    pub relax_inter: std::cell::Cell<bool>,
     pub env: &'a Env,
     pub mode: Mode,
     pub quirk: Option<&'static str>,
@@ -197,10 +199,10 @@ pub struct Ref<'a> {
 
 impl<'a> Ref<'a> {
     pub fn new(env: &'a Env, mode: Mode) -> Self {
-        Ref { env, mode, quirk: None, unspec_as: None, ts_nullish: false }
+        Ref { relax_inter: std::cell::Cell::new(false), env, mode, quirk: None, unspec_as: None, ts_nullish: false }
     }
     pub fn with_quirk(env: &'a Env, mode: Mode, q: &'static str) -> Self {
-        Ref { env, mode, quirk: Some(q), unspec_as: None, ts_nullish: false }
+        Ref { relax_inter: std::cell::Cell::new(false), env, mode, quirk: Some(q), unspec_as: None, ts_nullish: false }
     }
     #[allow(dead_code)]
     fn q(&self, name: &str) -> bool {
@@ -775,6 +777,11 @@ impl<'a> Ref<'a> {
                 None
             }
             D::Inter(ms) => {
+                if self.relax_inter.get() {
+                    // near miss by construction: a member of ONE operand only (the conjunction is what is being tested)
+                    let i = s.below(ms.len());
+                    return self.gen_member_f(&ms[i], s, depth, fuel);
+                }
                 if let Some(merged) = self.merge_objects(ms) {
                     let x = self.gen_member_f(&merged, s, depth, fuel)?;
                     return Some(x);
